@@ -51,7 +51,8 @@ def dump (s : St) : String :=
     "frac=" ++ ";".intercalate (s.frac.map (fun (k, v) => s!"{k}:" ++ showRow v)),
     "rows=" ++ ";".intercalate (s.rows.map (fun (k, f, w) => s!"{k}:" ++ showRow f ++ ":" ++ showRow w)),
     "occ=" ++ ";".intercalate (s.occ.map showInts),
-    s!"rng={s.entropy}:{s.spawned}:{s.mainDraws}" ]
+    s!"rng={s.entropy}:{s.spawned}:{s.mainDraws}",
+    "lockedord=" ++ showNats s.lockedOrd ]
 
 /-- parse `k` length-prefixed lists -/
 def takeLists {α : Type} (p : String → Option α) : Nat → List String → Option (List (List α))
@@ -95,7 +96,13 @@ def handle (d : DState) (toks : List String) : DState × String :=
   | "locked0" :: rest =>
     match takeList parseNat? rest with
     | some (es, r) => match takeList parseNat? r with
-      | some (ps, []) => ({ d with s := { d.s with locked0 := d.s.locked0 ++ [(es, ps)] } }, "ok")
+      | some (ps, []) => ({ d with s := { d.s with locked0 := d.s.locked0 ++ [(es, ps)],
+                                                    locked0Ord := d.s.locked0Ord ++ [none] } }, "ok")
+      | some (ps, [o]) =>
+        match parseNat? o with
+        | some ord => ({ d with s := { d.s with locked0 := d.s.locked0 ++ [(es, ps)],
+                                                locked0Ord := d.s.locked0Ord ++ [some ord] } }, "ok")
+        | none => (d, "bad-op")
       | _ => (d, "bad-op")
     | none => (d, "bad-op")
   -- load ens pn <valid> <frac> : add_traj(count=False) + traj_data entry, as load_paths does
